@@ -47,7 +47,9 @@ Cat == <<
   E("r1", "constant", "P", "int", 6), E("r2", "max", "P", "int", 120),
   \* parameters written by a common hardware function / a write method that takes a sibling along
   E("g1", "value", "B", "int", 20),   E("g2", "value", "P", "int", 40),   E("h1", "value", "B", "int", 60),
-  E("h2", "value", "B", "float", 81) >>
+  E("h2", "value", "B", "float", 81),
+  \* a module property whose legal value is falsy (0) / a non-zero one
+  E("omit_unchanged_within", "value", "B", "int", 0), E("omit_unchanged_within", "value", "B", "float", 1) >>
 BaseEntries == {E("mp", "value", "B", "int", 6), E("n", "value", "B", "int", 10),
                 E("r1", "value", "B", "int", 4), E("r2", "value", "P", "int", 6)}
 Required == {"mp", "n", "r1", "r2"}
